@@ -160,7 +160,7 @@ var exprFaults = []exprFault{
 var exprPositions = []string{"line-inline", "option-text", "option-condition", "if-condition", "elseif-condition", "set-rhs", "declare-value", "call-argument", "command-argument", "jump-expression", "operand", "function-argument"}
 
 // statement-level fault classes
-var stmtFaults = []string{"unknown-node-by-name", "unknown-node-by-expression", "non-string-jump-target", "unknown-command", "command-error", "non-boolean-if-condition", "non-boolean-option-condition", "markup-error-in-line", "unknown-function-call-statement", "wait-misuse", "compound-assign-unknown-variable", "assignment-changes-type", "async-command-error", "host-function-error-of-concrete-type"}
+var stmtFaults = []string{"unknown-node-by-name", "unknown-node-by-expression", "non-string-jump-target", "unknown-command", "command-error", "non-boolean-if-condition", "non-boolean-option-condition", "markup-error-in-line", "unknown-function-call-statement", "wait-misuse", "compound-assign-unknown-variable", "assignment-changes-type", "async-command-error", "host-function-error-of-concrete-type", "store-wiped-while-assigning", "command-of-white-space-only"}
 
 func (c06) Thresholds(tier string) map[string]int64 {
 	th := map[string]int64{
@@ -313,6 +313,13 @@ func (p c06) Run(c *core.Ctx) {
 			st = &hast.Stmt{K: hast.SSet, Var: "never_set", Op: r.Pick("+=", "-=", "*=", "/=", "%="), X: n("1")}
 		case "assignment-changes-type":
 			st = &hast.Stmt{K: hast.SSet, Var: "fuel", Op: "=", X: pick2(r, hast.Str("x"), hast.Bool(true))}
+		case "store-wiped-while-assigning":
+			// the right-hand side calls a host function that clears the store: the variable being assigned
+			// to is gone when its previous value is needed
+			st = &hast.Stmt{K: hast.SSet, Var: "fuel", Op: r.Pick("+=", "-=", "*="), X: hast.Call("wipe")}
+		case "command-of-white-space-only":
+			// a command whose whole text is white space that is not a blank or a tab: it has no name
+			st = &hast.Stmt{K: hast.SCommand, Name: r.Pick("\u00a0", "\u3000", "\u0085", "\u00a0\u00a0")}
 		case "async-command-error":
 			// the command's error arrives after the call that started it has returned
 			st = &hast.Stmt{K: hast.SCommand, Name: r.Pick("afail_goroutine", "afail_channel"), Args: []hast.CmdArg{{Word: "x"}}}
